@@ -23,6 +23,7 @@ func main() {
 	explain := flag.String("explain", "", "print a replay file")
 	manifest := flag.Bool("manifest", false, "print MANIFEST.json")
 	flag.Parse()
+	rules.ApplyExtensions()
 	if *explain != "" {
 		b, err := os.ReadFile(*explain)
 		if err != nil {
